@@ -4,6 +4,8 @@ import (
 	"mime"
 	"net/http"
 	"strings"
+
+	"github.com/vektah/gqlparser/v2/gqlerror"
 )
 
 const (
@@ -41,6 +43,41 @@ func determineResponseContentType(explicitHeaders map[string][]string, r *http.R
 	}
 
 	return acceptApplicationGraphqlResponseJson
+}
+
+// writeNegotiatedHeaders writes the configured response headers together with the
+// Content-Type negotiated from the request's Accept header (a configured
+// Content-Type wins) and returns that content type.
+func writeNegotiatedHeaders(
+	w http.ResponseWriter,
+	explicitHeaders map[string][]string,
+	r *http.Request,
+) string {
+	contentType := determineResponseContentType(explicitHeaders, r)
+	responseHeaders := mergeHeaders(
+		map[string][]string{
+			"Content-Type": {contentType},
+		},
+		explicitHeaders,
+	)
+	writeHeaders(w, responseHeaders)
+	return contentType
+}
+
+// statusForContentType returns the status for errors that stopped a request before
+// execution, as defined for the negotiated response media type.
+func statusForContentType(contentType string, errs gqlerror.List) int {
+	if contentType == acceptApplicationGraphqlResponseJson {
+		return statusForGraphQLResponse(errs)
+	}
+	return statusFor(errs)
+}
+
+// WriteContentType sets the Content-Type of a response that is written outside of a
+// transport (for example when no transport supports the request) to the one
+// negotiated from the request's Accept header.
+func WriteContentType(w http.ResponseWriter, r *http.Request) {
+	w.Header().Set("Content-Type", determineResponseContentType(nil, r))
 }
 
 func writeHeaders(w http.ResponseWriter, headers map[string][]string) {
